@@ -36,6 +36,9 @@ def gen_items(n, rnd):
 
 def shipped_items():
     out = []
+    for val in (0, 1, 2, 7, 127, 128, 255, 256, 257, -1, -2, -255, -256, 65535, 2147483647, -2147483647):
+        lit = "%d" % val if val >= 0 else "(0 - %d)" % -val
+        out.append(("exitvalue:%d" % val, xref.parse("val put = 1; proc main() is { put('x', 0); 0(%s) }" % lit), b"", {}))
     for f in sorted(glob.glob(os.path.join(common.REPO, "tests", "x", "*.x"))):
         try:
             prog = xref.parse(open(f).read())
